@@ -559,6 +559,7 @@ def r9_depth_conservation(repo, res):
         ("deletion outside the mapped part", S, [(0, 1), (2, 2), (0, 6)], "A" * 7),
         ("complete two-base substitution", S + 3, [(0, 8)], "AACTAAAA"),
         ("second read with the complete two-base substitution", S + 4, [(0, 4)], "ACTA"),
+        ("second half of the two-base substitution only", S + 3, [(0, 8)], "AAATAAAA"),
         ("half of the two-base substitution", S + 3, [(0, 8)], "AACAAAAA"),
         ("substitution outside the mapped part", S, [(0, 4)], "CAAA"),
         ("insertion", S + 4, [(0, 2), (1, 2), (0, 3)], "AAGGAAA"),
@@ -572,6 +573,25 @@ def r9_depth_conservation(repo, res):
     norm, muts = collections.defaultdict(list), collections.defaultdict(list)
     depth = collections.Counter()
     shows = collections.Counter()
+
+    def table_of(order):
+        """The coverage table (position -> key -> number of observations) the pipeline builds from the reads taken in `order`."""
+        me_ = Obj(phases={}, gene=gene, phaseable={}, _indel_sites_eqs={}, _indel_sites={}, _multi_sites=dict(multi), profile="P", _dump_cn={}, coverage=None)
+        n_, m_ = collections.defaultdict(list), collections.defaultdict(list)
+        for label, start, cigar, seq in order:
+            kind_, val_, _, _, _, _ = fold_parse_read(repo, cigar, seq, [30] * len(seq), ref_start=start, into=(me_, n_, m_))
+            if kind_ == "raise":
+                raise Raised(str(val_))
+        ci_ = Lifted(cov_init)
+
+        def mk_(*a, **k):
+            o = Obj()
+            ci_(o, *a, **k)
+            return o
+
+        Lifted(mk, funcs={"Coverage": mk_})(me_, n_, m_)
+        return {p_: {k_: len(v_) for k_, v_ in ops.items() if v_} for p_, ops in me_.coverage._coverage.items() if any(ops.values())}
+
     try:
         for label, start, cigar, seq in reads:
             kind, val, _, _, _, _ = fold_parse_read(repo, cigar, seq, [30] * len(seq), ref_start=start, into=(me, norm, muts))
@@ -626,6 +646,30 @@ def r9_depth_conservation(repo, res):
     except Raised as e:
         res.ob("C06.R9", mk, mk, False, expected="the sample pileup is built", found=f"raises {e}", key="depth-conservation")
         return
+    # the table does not depend on the order in which the reads are parsed
+    try:
+        import random as _random
+
+        fwd = table_of(reads)
+        orders = [("reversed", list(reversed(reads)))]
+        for sd in (1, 2, 3):
+            sh = list(reads)
+            _random.Random(sd).shuffle(sh)
+            orders.append((f"shuffled (seed {sd})", sh))
+        diff = None
+        for olabel, order in orders:
+            t2 = table_of(order)
+            if t2 != fwd and diff is None:
+                ks = [p_ for p_ in sorted(set(fwd) | set(t2)) if fwd.get(p_) != t2.get(p_)]
+                diff = f"{olabel} order: position {ks[0]} holds {t2.get(ks[0])}, in the listed order {fwd.get(ks[0])}"
+    except Unfoldable as e:
+        res.err("C06.R9", f"parser / coverage construction outside the folding language: {e}")
+        return
+    except Raised as e:
+        diff = f"raises {e}"
+    res.ob("C06.R9", pr, pr, diff is None,
+           expected=f"the coverage table built from the {len(reads)} reads is the same for the listed, the reversed and three shuffled read orders",
+           found="same" if diff is None else diff, clause="the result does not depend on read order", key="read-order")
     res.ob("C06.R9", mk, mk, not bad,
            expected=f"{len(reads)} reads (every CIGAR operation, deletions and substitutions inside and outside the RefSeq-mapped part, complete and incomplete "
                     "multi-nucleotide substitutions): at each of the 23 window positions the depth read back equals the number of spanning reads; substitution, "
